@@ -186,6 +186,11 @@ def run_case(case):
                 if sim.held != set(after):
                     out.discard = True
                     return out
+                # assigned values inside ItemSpaces die with the instance
+                for (s_, n_), d_ in list(rm.inputs.items()):
+                    for key_ in list(d_):
+                        if (s_, n_, key_) not in after:
+                            del d_[key_]
                 disturbed = True
         elif k == "clear_all_model":
             real.apply(op)
